@@ -925,22 +925,29 @@ def f_nan_to_num(x, copy=True, nan=0.0, posinf=None, neginf=None):
 
 
 def f_histogram(a, bins=10, range=None, density=None, weights=None):
-    """Counts per bin for explicit edges; last bin closed; NaN in no bin."""
-    _used("histogram(explicit edges, last bin closed)")
+    """Counts per bin for explicit edges; last bin closed; NaN in no bin.
+    The bin of every value is decided by forking (like searchsorted), so the
+    counts are concrete integers on each path."""
+    _used("histogram(explicit edges, last bin closed; bin of each value decided by forking)")
     if range is not None or density or weights is not None or np.ndim(bins) == 0:
         raise Unsupported("np.histogram with automatic bins")
     edges = list(to_obj(bins).reshape(-1))
     xs = list(to_obj(a).reshape(-1))
-    counts = []
     nb = len(edges) - 1
-    for i in builtins_range(nb):
-        lo, hi = edges[i], edges[i + 1]
-        tot = 0
-        for x in xs:
-            inside = _logical_and(elem_apply(np.greater_equal, x, lo),
-                                  elem_apply(np.less_equal, x, hi) if i == nb - 1 else elem_apply(np.less, x, hi))
-            tot = elem_apply(np.add, tot, _ite(inside, 1, 0))
-        counts.append(tot)
+    counts = [0] * nb
+    for x in xs:
+        if bool(l_isnan(x)):
+            continue
+        if bool(elem_apply(np.less, x, edges[0])):
+            continue
+        placed = False
+        for j in builtins_range(1, nb + 1):
+            if bool(elem_apply(np.less, x, edges[j])):
+                counts[j - 1] += 1
+                placed = True
+                break
+        if not placed and bool(elem_apply(np.equal, x, edges[nb])):
+            counts[nb - 1] += 1
     return sa(counts), np.asarray(bins)
 
 
@@ -1003,7 +1010,11 @@ def ma_make(data, mask=False, **kw):
 def ma_filled(a, fill_value=None):
     _used("np.ma.filled")
     if isinstance(a, SymArray) and a._mask is not None:
-        r = f_where(a._mask, fill_value, a.view(np.ndarray).view(SymArray))
+        data = a.view(np.ndarray)
+        if data.size and all(_isboolish(e) for e in data.flat) and not _isboolish(fill_value):
+            # NumPy keeps the bool dtype of the masked array: the fill value is cast (NaN -> True)
+            fill_value = bool(fill_value)
+        r = f_where(a._mask, fill_value, data.view(SymArray))
         return r
     if isinstance(a, np.ma.MaskedArray):
         return np.ma.filled(a, fill_value)
@@ -1122,6 +1133,8 @@ class NpProxy(object):
         if name in _CONSTRUCTORS:
             return _CONSTRUCTORS[name]
         if isinstance(real, np.ufunc):
+            if name in _EXACT_UFUNCS:
+                return _exact_ufunc(real)
             return real
         if callable(real) and not isinstance(real, type):
             def wrapper(*args, **kwargs):
@@ -1133,6 +1146,36 @@ class NpProxy(object):
             wrapper.__name__ = name
             return wrapper
         return real
+
+
+_EXACT_UFUNCS = ("log", "log2", "log10", "exp")   # sqrt of a concrete double stays a double (compare with S.close)
+
+
+def _exact_ufunc(real):
+    """sqrt/log/exp of *concrete* numbers inside verif code are kept exact
+    (algebraic symbol / uninterpreted function) instead of being rounded to a
+    double: arithmetic is over the reals (DESIGN 2.2), and the same function
+    applied to a symbolic value that equals the constant must agree with it."""
+    def wrapper(x, *args, **kwargs):
+        if core.current() is None or args or kwargs:
+            return real(x, *args, **kwargs)
+        if isinstance(x, (SymArray,)) or is_sym(x):
+            return real(x)
+        if isinstance(x, (int, float, np.floating, np.integer)) and not isinstance(x, bool):
+            xf = float(x)
+            if math.isnan(xf) or math.isinf(xf):
+                return real(x)
+            return SYM_UFUNC[real](V.lift(xf))
+        if isinstance(x, np.ndarray) and x.dtype.kind in "fiu":
+            out = np.empty(x.shape, dtype=object)
+            of, xf = out.reshape(-1), x.reshape(-1)
+            for i in range(xf.shape[0]):
+                v = float(xf[i])
+                of[i] = real(v).item() if (math.isnan(v) or math.isinf(v)) else SYM_UFUNC[real](V.lift(v))
+            return out.view(SymArray)
+        return real(x)
+    wrapper.__name__ = real.__name__
+    return wrapper
 
 
 def _c_zeros(shape, dtype=float, **kw):
